@@ -20,6 +20,7 @@ Fault enumeration on the real dns.message / dns.tsig / dns.renderer code:
 """
 from __future__ import annotations
 
+import base64
 import itertools
 import struct
 import traceback
@@ -33,6 +34,7 @@ import dns.rdataclass
 import dns.rdatatype
 import dns.renderer
 import dns.tsig
+import dns.tsigkeyring
 import dns.update
 
 from ..refs import tsig as ref
@@ -66,10 +68,10 @@ KEYNAMES = ["k.", "Key.Example."]
 SECRETS = [32, 1, 200]
 FUDGES = [300, 0, 65535]
 TIMEKEYS = ["now", "zero", "big"]
-ERRS = [0, 18]
+ERRS = [0, 18, 3862]      # none, BADTIME (with 6 octets of other data), a 12-bit extended code
 ORIGS = ["same", "diff"]
 ROLES = ["request", "response"]
-FORMS = ["dict", "key", "callable", "dict-bytes"]
+FORMS = ["dict", "key", "callable", "dict-bytes", "tsigkeyring"]
 
 MSG_ID = 0x1234
 OTHER_ID = 0x4321
@@ -154,6 +156,9 @@ def keyring_of(form, key):
         return {key.name: key.secret}
     if form == "callable":
         return lambda message, keyname: key if keyname == key.name else None
+    if form == "tsigkeyring":
+        return dns.tsigkeyring.from_text(
+            {key.name.to_text(): (key.algorithm.to_text(), base64.b64encode(key.secret).decode())})
     return key
 
 
@@ -174,6 +179,8 @@ def use_tsig(m, case, key, form):
         m.use_tsig({key.name: key.secret}, keyname=key.name, algorithm=key.algorithm, **kw)
     elif form == "callable":
         m.use_tsig(lambda message, keyname: key, keyname=key.name, **kw)
+    elif form == "tsigkeyring":
+        m.use_tsig(keyring_of(form, key), **kw)        # no key name: the first key of the ring is used
     else:
         m.use_tsig({key.name: key}, keyname=key.name, **kw)
 
@@ -1043,7 +1050,7 @@ def chunks(lst, k):
 def run(ctx):
     ctx.rule = (
         "Cases are points of algorithm(9) x message kind(4) x key name(2) x secret length(3) x fudge(3) x "
-        "signing time(3, incl. > 32 bits) x error/other(2) x original-id(2) x role(2: request, response bound to a "
+        "signing time(3, incl. > 32 bits) x error/other(3) x original-id(2) x role(2: request, response bound to a "
         "request MAC), each signed by the real library and recomputed by the reference; fault cases are one signed "
         "message (or envelope sequence) plus ONE alteration: a single flipped bit (every bit position), a wrong "
         "secret/key name/algorithm, a shifted clock, a changed request MAC, a TSIG error code, a misplaced TSIG RR, "
